@@ -299,13 +299,53 @@ theorem C09_iter_restored (hD : Balanced D) (fuel i : Nat) (s : IState α) :
    (failed or not) from a state with no flag set — never the stale previous value.
    PARTIAL: the full statement also covers every dependant of the failing cell; in a cyclic graph a dependant can be
    computed without descending into the failing cell when a cell on the evaluation stack shields it, so the general
-   argument needs a path invariant that is not carried here; dependants are covered by the correspondence run. -/
+   argument needs a path invariant that is not carried here; dependants are covered by the correspondence run.
+   (Carried since: `C09_iter_dependant_fails` / `C09_iter_dependant_retry` below prove the transitive statement.) -/
 theorem C09_iter_retry_partial (hD : Balanced D) {b : Nat} (hk : wb.kind b = .formula)
     (hbr : ∀ env, ∃ x, S.f b env = .error x) (s : IState α) (hw : ∀ m, (s.cells m).wip = false) (a : Nat) :
     ∃ e, (evaluateI wb S D true b (evaluateI wb S D true a s).2).1 = .error e := by
   have h := evalI_restores (wb := wb) (S := S) hD (wb.n + 1) a { s with computed := fun _ => false }
   exact evalI_broken true hk hbr _ _ (by rw [show ((evaluateI wb S D true a s).2.cells b).wip = _ from h.wip b]; exact hw b)
     rfl
+
+/- retry in iterative mode for EVERY dependant, any dependency graph (cycles included), any fuel, any state reached
+   inside a pass: if there is a read path from cell `a` to a cell `b` whose function raises on every call, along which
+   no cell is already computed in this pass or on the evaluation stack (`ReadPath` — exactly the cells the evaluator
+   enters; a computed / in-progress cell on the path is where the real code would not re-enter either), then evaluating
+   `a` raises — UnknownFunction, FormulaEvalError or the re-raised RecursionError, never the bare assertion, never a
+   value — and leaves every work-in-progress flag, the message list and the context stack as it found them.
+   `PassClosed s` is the invariant of the states of a pass (every cell computed in this pass has formula precedents
+   that are computed or on the stack): it holds at the start of a pass and is kept by every successful evaluation
+   (`evalI_ok_post`); the path invariant is `computed_along`. -/
+theorem C09_iter_dependant_fails (hD : Balanced D) {b : Nat} (hbr : ∀ env, ∃ x, S.f b env = .error x)
+    (fuel : Nat) {a : Nat} (s : IState α) (hc : PassClosed wb s) (hp : ReadPath wb s a b) :
+    (∃ e, (evalI wb S D true fuel a s).1 = .error e ∧ e ≠ .assertion ∧ (e.pycel = true ∨ e = .recursion)) ∧
+    (∀ m, ((evalI wb S D true fuel a s).2.cells m).wip = (s.cells m).wip) ∧
+    (evalI wb S D true fuel a s).2.errs = s.errs ∧ (evalI wb S D true fuel a s).2.ctx = s.ctx := by
+  obtain ⟨e, he⟩ := evalI_dependant_fails (wb := wb) (D := D) true hbr fuel s hc hp
+  have hcls := evalI_err_cls (wb := wb) (S := S) hD true fuel a s he
+  have hr := evalI_restores (wb := wb) (S := S) hD fuel a s
+  refine ⟨⟨e, he, hcls, ?_⟩, hr.wip, hr.errs, hr.ctx⟩
+  cases e <;> simp_all [Fail.pycel]
+
+/- the same at the level of `evaluate` calls: from a state with no flag set, after ANY evaluate of ANY cell (failed or
+   not), evaluating any cell that reaches the broken cell through formula cells raises again. -/
+theorem C09_iter_dependant_retry (hD : Balanced D) {b : Nat} (hbr : ∀ env, ∃ x, S.f b env = .error x)
+    (s : IState α) (hw : ∀ m, (s.cells m).wip = false) (a₀ : Nat) {a : Nat} (hp : FPath wb a b) :
+    ∃ e, (evaluateI wb S D true a (evaluateI wb S D true a₀ s).2).1 = .error e ∧ e ≠ .assertion := by
+  have h := evalI_restores (wb := wb) (S := S) hD (wb.n + 1) a₀ { s with computed := fun _ => false }
+  have hclear : ∀ m, ¬ InD ({ (evaluateI wb S D true a₀ s).2 with computed := fun _ => false } : IState α) m := by
+    intro m hm
+    rcases hm with h1 | h1
+    · cases h1
+    · have : ((evaluateI wb S D true a₀ s).2.cells m).wip = (s.cells m).wip := h.wip m
+      rw [show ({ (evaluateI wb S D true a₀ s).2 with computed := fun _ => false } : IState α).cells m =
+        (evaluateI wb S D true a₀ s).2.cells m from rfl, this, hw m] at h1
+      cases h1
+  have hclosed : PassClosed wb ({ (evaluateI wb S D true a₀ s).2 with computed := fun _ => false } : IState α) :=
+    fun m _ hcm => by cases hcm
+  obtain ⟨e, he⟩ := evalI_dependant_fails (wb := wb) (D := D) true hbr (wb.n + 1) _ hclosed (hp.readPath hclear)
+  exact ⟨e, he, evalI_err_cls (wb := wb) (S := S) hD true _ _ _ he⟩
 
 section InstI
 open Pycel Pycel.EngineInst Pycel.Failure.Inst
@@ -327,6 +367,13 @@ theorem C09_iter_demo_repaired :
     isErr .formulaEval (evaluateI (wbOf demo) (semOf demo) .repaired true 2 r.2).1 = true ∧
     isVal (.num 2) (evaluateI (wbOf demo) (semOf demo) .repaired true 3 r.2).1 = true := by
   decide +kernel
+
+/- non-vacuity of `C09_iter_dependant_retry`: in the demo workbook C1 reaches the broken B1 through formula cells -/
+example : ∃ e, (evaluateI (wbOf demo) (semOf demo) .repaired true 2
+      (evaluateI (wbOf demo) (semOf demo) .repaired true 3 (initI (inputsOf (specsOf demo)))).2).1 = .error e ∧
+    e ≠ .assertion :=
+  C09_iter_dependant_retry (wb := wbOf demo) (b := 1) C09_repaired_balanced (fun _ => ⟨.nameError, rfl⟩) _
+    (fun _ => rfl) 3 (.step (j := 1) (by decide) (by decide) (.here (by decide)))
 
 end InstI
 
